@@ -296,7 +296,7 @@ func checkSetNewKVCallers(p *core.Prog, r *core.Report, rule string) {
 	count := map[string]int{}
 	total := 0
 	for _, fn := range p.RepoFunctions() {
-		calls := core.FindInstrs(fn, core.IsCallTo(obj))
+		calls := core.FindInstrsIn(fn, core.IsCallTo(obj))
 		if len(calls) == 0 {
 			continue
 		}
